@@ -106,6 +106,22 @@ def t_window(s: float, lo: float, hi: float) -> float:
     return (lo if s > hi >= lo < 5.0 else 0.25 * s)
 
 
+def t_postcall(s: float, e: float, k: float) -> float:
+    # a local bound differently on the two paths, used after the if as the argument of a call to another function
+    if e > 1.0:
+        kapp = k * (1.0 + e)
+    else:
+        kapp = k
+    return t_mm(s, 2.0, kapp) + 0.25 * t_ma1(kapp, e)
+
+
+def t_swap(a: float, b: float, k: float) -> float:
+    # tuple assignments whose right-hand sides use the names being assigned
+    lo, hi = a, b + 1.0
+    lo, hi = hi, lo + hi
+    return k * lo / (1.0 + hi)
+
+
 def t_local(s: float, k: float) -> float:
     a = s * s
     b = a + k
@@ -185,5 +201,5 @@ def u_exp(s: float, k: float) -> float:
     return k * math.exp(-s)
 
 
-RATES = {1: [t_const], 2: [t_ma1, t_cond, t_chain, t_elif, t_nested, t_local, t_time, t_cap], 3: [t_ma2, t_mm, t_inh, t_hill, t_nestif, t_guarded, t_share, t_eqgate, t_window], 4: [t_rev]}
+RATES = {1: [t_const], 2: [t_ma1, t_cond, t_chain, t_elif, t_nested, t_local, t_time, t_cap], 3: [t_ma2, t_mm, t_inh, t_hill, t_nestif, t_guarded, t_share, t_eqgate, t_window, t_postcall, t_swap], 4: [t_rev]}
 UNTRANSLATABLE = [u_loop, u_andor, u_aug, u_exp]
